@@ -289,7 +289,14 @@ func (h *hist) actAuthorize(t *rapid.T) {
 		} else if s.M.Registered {
 			h.signGCA(&a)
 		}
-		switch rapid.IntRange(0, 2).Draw(t, "how") {
+		switch rapid.IntRange(0, 3).Draw(t, "how") {
+		case 3:
+			// the (r, N-s) twin of a genuine GCA signature - for a live device that
+			// is its own authorization with 256 bits changed by somebody without the key
+			if len(live) > 0 && s.M.Registered {
+				a = s.M.Devices[rapid.SampledFrom(live).Draw(t, "twinOf")]
+			}
+			a.Sig = ref.HighSTwin(a.Sig)
 		case 0:
 			pos := rapid.IntRange(0, 511).Draw(t, "sigBit")
 			a.Sig[pos/8] ^= 1 << (uint(pos) % 8)
